@@ -347,7 +347,15 @@ def run(ctx, rep):
                 nm = K.resolve_expr(rdl, n, c.args[0])
                 while isinstance(nm, ast.Call) and A.call_name(nm) == "str" and len(nm.args) == 1:
                     nm = nm.args[0]
-                okn = okn and mc is not None and A.src(nm) == "'%%s.%%s' %% (%s, %s)" % (mc[0], mc[1])
+                same_ = mc is not None and A.src(nm) == "'%%s.%%s' %% (%s, %s)" % (mc[0], mc[1])
+                if mc is not None and not same_:
+                    # however it is spelled (%-formatting, str.format, f-string, concatenation): evaluated on sample names
+                    try:
+                        from .. import miniinterp as MIn
+                        same_ = MIn.eval_expr(nm, {"__globals__": {mc[0]: "pkg.mod", mc[1]: "Cls"}}) == "pkg.mod.Cls"
+                    except (MIn.Raised, AnalysisError):
+                        same_ = False
+                okn = okn and same_
     rep.ob("R09.4", "vinegar.load: the generic stand-in is named '<module>.<class>' after the original", okn and bool(gen),
            "named '%s.%s' % (module name, class name) of the payload" if okn else "the stand-in class is not named after the original", fl.loc,
            kind="site")
@@ -413,8 +421,12 @@ def run(ctx, rep):
     tbset = [n for n in A.walk(fl.node) if isinstance(n, ast.Assign) and isinstance(n.targets[0], ast.Attribute)
              and n.targets[0].attr == "_remote_tb"]
     okt = len(tbset) == 1 and names and A.src(tbset[0].value) == names[2]
-    rep.ob("R09.6", "vinegar.load: the remote traceback text is attached", bool(okt), "exc._remote_tb = tbtext" if okt else
-           "_remote_tb is not set from the transmitted text", fl.loc, kind="site")
+    deferred_tb = None
+    if okt:
+        rep.ob("R09.6", "vinegar.load: the remote traceback text is attached", True, "exc._remote_tb = tbtext", fl.loc, kind="site")
+    else:
+        # not in the plain form: decided by the load model below (R09.11 compares the restored traceback text)
+        deferred_tb = fl.loc
 
     # ------------------------------------------------------------------ R09.7
     STOP = ctx.const("rpyc.core.consts", "EXC_STOP_ITERATION")
@@ -447,6 +459,12 @@ def run(ctx, rep):
                                                              "exception object the reply carries" in o.key), "R09.8", floor=2)
     K.share(ctx, rep, "c13", lambda o: o.rule == "R13.5" and "written only by" in o.key, "R09.8", floor=1)
     _dump_record_model(ctx, rep)
+    if deferred_tb is not None:
+        m_ok = [o for o in rep.obs if o.rule == "R09.11"]
+        decided = bool(m_ok) and all(o.ok for o in m_ok)
+        rep.ob("R09.6", "vinegar.load: the remote traceback text is attached", decided,
+               "restored on the model records (R09.11)" if decided else "_remote_tb is not set from the transmitted text", deferred_tb,
+               kind="model" if decided else "site")
 
 
 def _dump_record_model(ctx, rep):
